@@ -144,4 +144,40 @@ def c10(tier, seed):
         exhaustive=True)
 
 
-CHECKS = {'C04': c04, 'C10': c10, 'C01': c01, 'C02': c02, 'C03': c03, 'C05': c05, 'C06': c06, 'C12': c12}
+
+def retry_stage(fam):
+    return Stage('retry_' + fam, mc=('Retry_' + fam, 'Retry_%s.cfg' % fam), emit=('Retry_' + fam, 'Retry_%s_emit.cfg' % fam),
+                 driver='retry', trace=('RetryTrace', 'RetryTrace.cfg'),
+                 nontrivial=lambda tr: sum(1 for e in tr['ev'] if e['ev'] == 'Send') >= 2)
+
+
+ASSUME_CLIENT = ASSUME_COMMON + [
+    'the transport is a scripted _request of a real AbstractClient / AbstractAsyncClient subclass; time.sleep / asyncio.sleep '
+    'as referenced by pjrpc.client.retry are replaced by recorders in the driver process (delays are recorded, never slept)',
+    'backoff parameters are integers so that TLC computes the delays exactly',
+]
+
+
+def c09(tier, seed):
+    t = 'quick' if tier == 'quick' else 'thorough'
+    return dict(stages=[retry_stage('c09_' + t)],
+                rule='every outcome sequence the environment can produce (TLC explores the transport\'s choices attempt by '
+                     'attempt; terminal states = complete fault sequences) for n in 0..%d x codes/exceptions sets (None, '
+                     'empty, one, several) x 7 backoff configurations (periodic, exponential, Fibonacci; jitter, caps, default '
+                     'Fibonacci cap, cap below the first delay) x single / batch / notification x client-wide / per-request / '
+                     'overriding / explicitly disabled / no strategy x sync / async; non-trivial = at least two sends'
+                     % (2 if tier == 'quick' else 4),
+                assumptions=ASSUME_CLIENT, exhaustive=True)
+
+
+def c19(tier, seed):
+    t = 'quick' if tier == 'quick' else 'thorough'
+    return dict(stages=[retry_stage('c19_' + t)],
+                rule='every per-attempt outcome sequence (ok, error responses, transport exceptions incl. subclasses, undecodable '
+                     'body, identity mismatch, unexpected body, BaseException) permitted by strategies of 0..%d attempts x 0..3 '
+                     'tracers x caller-supplied / default trace context x single / batch / notification x sync / async; '
+                     'non-trivial = at least two sends' % (2 if tier == 'quick' else 3),
+                assumptions=ASSUME_CLIENT, exhaustive=True)
+
+
+CHECKS = {'C04': c04, 'C09': c09, 'C19': c19, 'C10': c10, 'C01': c01, 'C02': c02, 'C03': c03, 'C05': c05, 'C06': c06, 'C12': c12}
